@@ -29,6 +29,7 @@ structure G where
 structure Mon where
   prev : Option Obs
   g : List (Nat × Nat × G)
+  n : Nat := N          -- size of the observed universe (`n=` of the sequence label)
 
 def gOf (g : List (Nat × Nat × G)) (o sp : Nat) : G :=
   match g.find? (fun (a, b, _) => a = o ∧ b = sp) with
@@ -38,7 +39,7 @@ def gOf (g : List (Nat × Nat × G)) (o sp : Nat) : G :=
 def gSet (g : List (Nat × Nat × G)) (o sp : Nat) (v : G) : List (Nat × Nat × G) :=
   (o, sp, v) :: g.filter (fun (a, b, _) => ¬ (a = o ∧ b = sp))
 
-def pairs : List (Nat × Nat) := (List.range N).flatMap (fun o => (List.range N).map (fun sp => (o, sp)))
+def pairs (n : Nat) : List (Nat × Nat) := (List.range n).flatMap (fun o => (List.range n).map (fun sp => (o, sp)))
 
 def firstSome {α} (l : List α) (f : α → Option String) : Option String :=
   l.foldl (fun acc x => match acc with | some m => some m | none => f x) none
@@ -46,9 +47,9 @@ def firstSome {α} (l : List α) (f : α → Option String) : Option String :=
 def balAt (l : List Int) (i : Nat) : Int := (l[i]?).getD 0
 
 /-- (1): every balance that went down in an accepted call -/
-def checkDebits (prev o : Obs) (g : List (Nat × Nat × G)) (kind : String) (a auth : List Nat)
+def checkDebits (n : Nat) (prev o : Obs) (g : List (Nat × Nat × G)) (kind : String) (a auth : List Nat)
     (amt : Int) : Option String :=
-  firstSome (List.range N) (fun h =>
+  firstSome (List.range n) (fun h =>
     if balAt o.bal h < balAt prev.bal h then
       if kind = "transfer" ∨ kind = "burn" then
         if a.head? ≠ some h then
@@ -77,8 +78,8 @@ def checkDebits (prev o : Obs) (g : List (Nat × Nat × G)) (kind : String) (a a
     else none)
 
 /-- (2): every allowance that went up -/
-def checkRaises (prev o : Obs) (kind : String) (a auth : List Nat) (amt : Int) : Option String :=
-  firstSome pairs (fun (x, y) =>
+def checkRaises (n : Nat) (prev o : Obs) (kind : String) (a auth : List Nat) (amt : Int) : Option String :=
+  firstSome (pairs n) (fun (x, y) =>
     if o.allowOf x y > prev.allowOf x y then
       if ¬ o.ok then some s!"site=fungible.auth.allowance_raise allowance({x},{y}) rose in a rejected call"
       else if kind ≠ "approve" ∨ a ≠ [x, y] then
@@ -91,8 +92,8 @@ def checkRaises (prev o : Obs) (kind : String) (a auth : List Nat) (amt : Int) :
     else none)
 
 /-- (2)+(3): allowance against the ghost counters -/
-def checkGhost (o : Obs) (g : List (Nat × Nat × G)) : Option String :=
-  firstSome pairs (fun (x, y) =>
+def checkGhost (n : Nat) (o : Obs) (g : List (Nat × Nat × G)) : Option String :=
+  firstSome (pairs n) (fun (x, y) =>
     let v := o.allowOf x y
     let gh := gOf g x y
     if v < 0 then some s!"site=fungible.auth.allowance_negative allowance({x},{y}) = {v}"
@@ -114,7 +115,7 @@ def check (m : Mon) (opl obs : String) : Mon × Option String :=
   | none => (m, some s!"site=fungible.auth.parse unparsable observation {obs}")
   | some o =>
     let prev : Obs := m.prev.getD
-      { ok := true, sup := 0, bal := List.replicate N 0, allow := [], now := o.now, evs := [], dem := [] }
+      { ok := true, sup := 0, bal := List.replicate m.n 0, allow := [], now := o.now, evs := [], dem := [] }
     let ws := words opl
     let kind := (ws.drop 1).head?.getD ""
     let a := natList ((kv? ws "a").getD "-")
@@ -150,17 +151,17 @@ def check (m : Mon) (opl obs : String) : Mon × Option String :=
     let fail :=
       orElse rollback fun _ =>
       orElse bounds fun _ =>
-      orElse (if o.ok then checkDebits prev o m.g kind a auth amt else none) fun _ =>
-      orElse (checkRaises prev o kind a auth amt) fun _ =>
-      checkGhost o g'
-    ({ prev := some o, g := g' }, fail)
+      orElse (if o.ok then checkDebits m.n prev o m.g kind a auth amt else none) fun _ =>
+      orElse (checkRaises m.n prev o kind a auth amt) fun _ =>
+      checkGhost m.n o g'
+    ({ prev := some o, g := g', n := m.n }, fail)
 
 def machine : Machine where
   σ := M
   init := initM
   op := stepLine
   μ := Mon
-  minit := fun _ => { prev := none, g := [] }
+  minit := fun label => { prev := none, g := [], n := labelN label }
   mon := check
 
 end OZ.Drv.C02
